@@ -18,7 +18,7 @@ from ..facts import walk
 from ..report import Check, canon
 
 FILES = {"obj.c", "str.c", "ustr.c", "mbuff.c", "objpair.c", "tok.c", "url.c", "regexp.c", "array.c",
-         "linked_list.c", "dlinked_list.c"}
+         "linked_list.c", "dlinked_list.c", "socket.c"}
 NORETURN = {"libast_fatal_error"}
 import json, os
 from ..facts import VERIF
